@@ -1,5 +1,9 @@
 import Model.Numscript.Spec
 import Lemmas.Syntax
+import Model.Numscript.VM
+import Lemmas.NumResolve
+import Lemmas.NumRun
+import Lemmas.NumCheck
 /-! C12 — no script, variable map or ledger state can crash the engine.
 Stage 1: at the level of `Spec` (the source-level interpreter the compiler+VM are differentially tied to).
 `Spec.run` is a total Lean function — every recursion in it (`evalSource`/`evalSources`,
@@ -28,6 +32,98 @@ theorem run_is_pure (P Q : Script) (req req' : Request) (store store' : Store) :
 theorem first_error_wins (env : VEnv) (s : Stmt) (ss : List Stmt) (F : Full) (e : Err)
     (h : evalStmt env s F = .error e) : evalStmts env (s :: ss) F = .error e := by
   simp [evalStmts, h]
+
+/-! ### stage 2 — the bytecode VM (model A2) -/
+
+/-- **the VM terminates**: there are no jumps, `Execute` performs at most one `tick` per instruction
+(`VM.exec` recurses structurally on the remaining instruction list) -/
+theorem vm_terminates (rs : List BVal) (is : List Instr) (m : VM.Machine) : VM.ticks rs is m ≤ is.length := by
+  induction is generalizing m with
+  | nil => simp [VM.ticks]
+  | cons i is ih =>
+    simp only [VM.ticks, List.length_cons]
+    cases h : VM.step rs i m with
+    | ok m' => have := ih m'; simp only []; omega
+    | error e => simp
+    | panic k => simp
+
+/-- **resolution never panics**: for a COMPILED program, whatever the caller's variable map and the store hold,
+`SetVarsFromJSON` (an `Except`: no crash alternative), `ResolveResources` and `ResolveBalances` end with a result
+or a defined error — none of their nil dereferences and type assertions (`(*acc).(AccountAddress)`,
+`(*ass).(Asset)`, `Resources[i].(Monetary)`, `(*mon).(HasAsset)`) can fail.  Proof: the compiler only ever stores,
+inside a resource, addresses of EARLIER resources of the right type (`compile_good`), the names of the plain
+variables are pairwise distinct (`compile_varNames_nodup`), and every resolved value has the type of its
+resource (`TypedVals`). -/
+theorem resolve_never_panics (P : Script) (prog : Program) (hc : compile P = .ok prog) (req : Request) (store : Store)
+    (vars : List (String × BVal)) (hv : VM.setVarsFromJSON prog req.vars = .ok vars) :
+    (VM.resolveResources prog vars store).isPanic = false ∧
+    ∀ R, VM.resolveResources prog vars store = .ok R → (VM.resolveBalances prog R store).isPanic = false := by
+  obtain ⟨hwf, hwn⟩ := compile_good hc
+  have hvt := setVarsFromJSON_typed (compile_varNames_nodup hc) hv
+  have h1 := resolveResources_ok prog vars store hwf hvt
+  constructor
+  · cases hr : VM.resolveResources prog vars store with
+    | ok R => rfl
+    | error e => rfl
+    | panic k => rw [hr] at h1; exact h1.elim
+  · intro R hr
+    rw [hr] at h1
+    exact (resolveBalances_ok prog R store h1.1 h1.2 hwn).1
+
+/-- **the compiler never crashes**: `VisitExpr` returns a nil `*machine.Address` for number arithmetic, and several
+visitors dereference the returned address (`*assetAddr`, `*accAddr`, `*monAddr`); the model makes that dereference
+an explicit outcome `nilAddr`, and it is unreachable — every dereference is behind a type test that number
+arithmetic fails.  So compiling ends with a program or with a reported error (static rule or size limit). -/
+theorem compile_never_panics (P : Script) : compile P ≠ .error .nilAddr := by
+  intro h
+  have := compile_ck P
+  rw [h] at this
+  exact this
+
+/-! #### the VM never panics
+
+The FULL statement:
+```
+theorem vm_never_panics (P : Script) (prog : Program) (hc : compile P = .ok prog) (hne : P.stmts ≠ [])
+    (req : Request) (store : Store) : (VM.run prog req store).isPanic = false
+```
+(`P.stmts ≠ []` is a fact of the grammar; `Execute` indexes `Instructions[0]`.)  Proved below for the fragment
+`Script.frag` (see `C08.compile_correct_partial`), for EVERY variable map and EVERY store content: none of the
+explicit panic outcomes of the VM model (typed pop of the wrong type, pop on an empty stack, `BUMP` out of
+range, `SAVE`/`repay` through a missing balance map, nil `Amount`, "stack not empty after execution",
+unsupported value in `GetTxMetaJSON`) is reachable.  Missing: the typing argument for source / destination
+allotments and ordered destinations (`MAKE_ALLOTMENT`, `ALLOC`, `BUMP n`, `kept`) — observed panic-free by the
+differential (model and real VM agree on panic / no panic on every generated case). -/
+theorem vm_never_panics_partial (P : Script) (prog : Program) (hc : compile P = .ok prog) (hfr : P.frag)
+    (req : Request) (store : Store) : (VM.run prog req store).isPanic = false := by
+  cases hv : VM.setVarsFromJSON prog req.vars with
+  | error e => simp [VM.run, hv, VM.Outcome.isPanic]
+  | ok vars =>
+    obtain ⟨h1, h2⟩ := resolve_never_panics P prog hc req store vars hv
+    cases hr : VM.resolveResources prog vars store with
+    | error e => simp [VM.run, hv, hr, VM.Outcome.isPanic]
+    | panic k => rw [hr] at h1; simp [VM.Outcome.isPanic] at h1
+    | ok R =>
+      have h3 := h2 R hr
+      cases hb : VM.resolveBalances prog R store with
+      | error e => simp [VM.run, hv, hr, hb, VM.Outcome.isPanic]
+      | panic k => rw [hb] at h3; simp [VM.Outcome.isPanic] at h3
+      | ok r =>
+        obtain ⟨vals, B⟩ := r
+        obtain ⟨cx, hE, hok⟩ := run_setup hc hv hr hb
+        have hrel : Rel B.accts B.keys ({ balances := B } : VM.Machine) { st := { bal := B.bal, postings := [] } } :=
+          ⟨rfl, rfl, rfl, rfl, rfl, rfl, rfl, hok⟩
+        have hex := execute_correct hc hfr cx hE _ _ hrel
+        simp only [VM.run, hv, hr, hb]
+        cases hev : evalStmts (envOf prog.resources vals) P.stmts { st := { bal := B.bal, postings := [] } } with
+        | error er =>
+          rw [hev] at hex
+          simp [hex, VM.Outcome.isPanic]
+        | ok F =>
+          rw [hev] at hex
+          obtain ⟨m', hx, hr'⟩ := hex
+          simp only [hx, hr'.txMeta, hr'.acctMeta, renderTxMeta_map, renderAcctMeta_map]
+          split <;> rfl
 
 end C12
 
